@@ -885,6 +885,9 @@ class KeywordSearches:
                 data, parent, parentref, translated_path, ancestry,
                 relay_segment)
         else:
+            # Never disturb the caller's own path and ancestry
+            translated_path = YAMLPath(translated_path)
+            ancestry = list(ancestry)
             for _ in range(parent_levels):
                 translated_path.pop()
                 (data, _) = ancestry.pop()
